@@ -15,3 +15,6 @@ const char g_dtor_tag_QueuedEvent;
 WList *g_rm_list; long g_rm_idx; WList *g_ins_list; long g_ins_idx;
 #endif
 _Bool g_in_processing;
+#ifdef UNIT_QUEUE
+int g_pred[2]; _Bool g_verdict[2];
+#endif
